@@ -9,6 +9,16 @@ CHECKS = {
    text="Exhaustive-domain model checking: every one of the 2^16 operand pairs (2^24 with the fma accumulator) is covered by a CBMC verdict against a shift-and-xor reference multiplication mod 0x11D; tables, fma, division, alpha and the panics are all asserted in the same harnesses. Thorough adds associativity/distributivity/commutativity over all 2^24 triples (256 harnesses).",
    note="Trusted: the 8-step polynomial reference in the harness; Kani's model of unoptimised MIR; rustc's const evaluation of the derived tables.",
    design="§4 C10"),
+ "C13": dict(level="model_checking", engine="E1 kani/cbmc",
+   technique="Kani (CBMC) harnesses over the real base.rs serialisers/parsers with symbolic ids, fields and buffers; SAT verdict",
+   text="Exhaustive for the fixed-size formats: all 2^32 payload ids and all 2^32 4-byte strings; all transmission-information field values with F<2^40 and all 12-byte buffers (byte-by-byte layout, reserved byte, both round-trip directions). Packets: each payload length 0..8 with symbolic id/contents for serialise+round-trip, symbolic length 0..8 for parse+re-serialise; short buffers panic.",
+   note="Trusted: Kani's model of Vec/alloc; payloads longer than 8 bytes (thorough: also 16 and 33) are outside the claim.",
+   design="§4 C13"),
+ "C19": dict(level="model_checking", engine="E2 MIR->SMT (z3 5.1 + cvc5)",
+   technique="symbolic execution of rustc's MIR of ObjectTransmissionInformation::new (+int_div_ceil) into integer SMT with the division lemma; z3/cvc5 verdict over the whole input types; models replayed natively",
+   text="Exhaustive domain: F:u64, T:u16, Z:u8, N:u16, Al:u8 all symbolic over their whole types (T,Z,Al>0). Two unsat queries per overflow-check setting decide 'valid => accepted and reports the given values' and 'accepted => valid' against an oracle in unbounded integers in multiplication form; sat witnesses guard against vacuity. Counterexamples are replayed against the real crate in dev and release builds.",
+   note="Trusted: the MIR executor (vlib/mir.py) and its model of u64::is_multiple_of / u64::div_ceil; the oracle formula; solvers z3 5.1 and cvc5 1.0 (cross-checked when both answer).",
+   design="§4 C19"),
 }
 
 NOT_APPLICABLE = {
